@@ -612,6 +612,73 @@ func c11Repeat(c *Ctx, recvs []c11Recv) {
 	}
 }
 
+// c11Residue: a structure on which every query was issued, and a twin built the same way on which none
+// was, are then changed in the same length-preserving way below the root (every nested Stack reversed,
+// its first element replaced, its fold option toggled; every nested Condition given another keyword).
+// Afterwards both answer every query alike: a query leaves nothing behind that outlives a later change.
+func c11Residue(c *Ctx, recvs []c11Recv) {
+	var mutate func(v any, depth int)
+	mutate = func(v any, depth int) {
+		if st, ok := refAsStack(v); ok {
+			if depth > 0 {
+				st.Reverse()
+				if e, ok := st.Index(0); ok {
+					if str, isStr := e.(string); isStr {
+						st.Replace(str+"'", 0)
+					}
+				}
+				st.SetFold()
+			}
+			for _, e := range contents(st) {
+				mutate(e, depth+1)
+			}
+			return
+		}
+		if cd, ok := refAsCond(v); ok {
+			if depth > 0 {
+				cd.SetKeyword(cd.Keyword() + "2")
+			}
+			mutate(cd.Expression(), depth+1)
+		}
+	}
+	parallelFor(len(recvs), func(i int) {
+		rv := recvs[i]
+		if strings.Contains(rv.Name, "/spy/") || strings.Contains(rv.Name, "/closures/") {
+			return // their leaves keep logs / yield to a scheduler
+		}
+		x, twin := rv.Mk(), rv.Mk()
+		calls := c11Calls(x)
+		px, pt := reflect.New(reflect.TypeOf(x)), reflect.New(reflect.TypeOf(twin))
+		px.Elem().Set(reflect.ValueOf(x))
+		pt.Elem().Set(reflect.ValueOf(twin))
+		usable := func(cl c11Call) bool { return cl.Method != "Transfer" && cl.Method != "Addr" && cl.Method != "ID" }
+		for _, cl := range calls {
+			if usable(cl) {
+				noPanic(func() { px.MethodByName(cl.Method).Call(cl.args) })
+			}
+		}
+		if noPanic(func() { mutate(x, 0); mutate(twin, 0) }) != "" {
+			return
+		}
+		for _, cl := range calls {
+			if !usable(cl) {
+				continue
+			}
+			var a, b string
+			c.Transitions.Add(2)
+			if noPanic(func() {
+				a = contentText(px.MethodByName(cl.Method).Call(cl.args))
+				b = contentText(pt.MethodByName(cl.Method).Call(cl.args))
+			}) != "" {
+				continue
+			}
+			if a != b {
+				c.Violation("query-leaves-residue:"+cl.Method, fmt.Sprintf("%s.%s(%s): after the same change below the root, the structure that had been queried before answers %q, its never-queried twin %q", rv.Name, cl.Method, cl.Args, a, b), c11Case{rv.Name, cl.Method, cl.Args}, len(cl.Args))
+			}
+		}
+	})
+}
+
 const c11EnvTag = " [package default loggers replaced after construction]"
 
 // a logger that is live as far as the library can tell (its writer is not io.Discard) and swallows everything
@@ -634,6 +701,10 @@ func c11Env(on bool) {
 
 func init() {
 	register(&Check{ID: "C11", Engine: "A/B+C", Run: func(c *Ctx) {
+		if msg := hollowFirst(); msg != "" {
+			// alias types first met in hollow form: the order in which values of a type arrive must not matter
+			c.Violation("hollow-value-seen-first", "after nil pointers / zero values of an alias type had been the first values of that type the library saw: "+msg, nil, 0)
+		}
 		recvs := c11Receivers(c.Quick())
 		// (1)-(4): purity, stable answers, returned containers, no lock on the read path
 		// receivers are built first (construction itself takes locks: SetMutex + Push); the hook that
@@ -641,6 +712,7 @@ func init() {
 		// "the same answer when repeated" - many times, not twice: first thing in a fresh process, so that
 		// nothing that accumulates per call (in the instance or in the package) has had a chance to build up
 		c11Repeat(c, recvs)
+		c11Residue(c, recvs)
 		for _, env := range []string{"", c11EnvTag} {
 			stackage.VerifHook = nil
 			built := make([]any, len(recvs))
